@@ -128,6 +128,12 @@ def check(F, R, Gm):
                ("2(y)-3", ("bin", "Sub", ("bin", "Mul", N(2), L("y")), N(3))), ("(y)-1", ("bin", "Sub", L("y"), N(1))), ("7-2", ("bin", "Sub", N(7), N(2))), ("x-1", ("bin", "Sub", L("x"), N(1))),
                ("2y-3", ("bin", "Sub", ("bin", "Mul", N(2), L("y")), N(3))), ("2(4)-3", ("bin", "Sub", ("bin", "Mul", N(2), N(4)), N(3))), ("(a)(b)-2", ("bin", "Sub", ("bin", "Mul", L("a"), L("b")), N(2))),
                ("3-2x", ("bin", "Sub", N(3), ("bin", "Mul", N(2), L("x")))), ("x+1", ("bin", "Add", L("x"), N(1))), ("2x*3", ("bin", "Mul", ("bin", "Mul", N(2), L("x")), N(3))), ("x/2-1", ("bin", "Sub", ("bin", "Div", L("x"), N(2)), N(1)))]
+    # negated parenthesised factors of an implicit product: the product of the parts, whatever tree carries it
+    NG = lambda t: ("un", "Neg", t)
+    M = lambda a, b: ("bin", "Mul", a, b)
+    special += [("(-2)(-3)", M(NG(N(2)), NG(N(3)))), ("(-x)(-y)", M(NG(L("x")), NG(L("y")))), ("(-a)(-b)(-c)", M(M(NG(L("a")), NG(L("b"))), NG(L("c")))), ("2(-x)", M(N(2), NG(L("x")))), ("(-x)y", M(NG(L("x")), L("y"))),
+                ("12 / (-2)(-3)", ("bin", "Div", N(12), M(NG(N(2)), NG(N(3))))), ("10 - (-2)(-3)", ("bin", "Sub", N(10), M(NG(N(2)), NG(N(3))))), ("(-x)(-y)(-2)(-3)", M(M(M(NG(L("x")), NG(L("y"))), NG(N(2))), NG(N(3)))),
+                ("(-x)(-3)", M(NG(L("x")), NG(N(3)))), ("-(-x)(-y)", NG(M(NG(L("x")), NG(L("y"))))), ("(-(x + 1))(-(y - 2))", M(NG(("bin", "Add", L("x"), N(1))), NG(("bin", "Sub", L("y"), N(2)))))]
     for text, want in special:
         ast = RT.parse_text("min %s\ns.t.\nx >= 0" % text)
         n += 1
@@ -136,12 +142,75 @@ def check(F, R, Gm):
             continue
         got = to_tree(ast.fields["objective"].fields["rhs"])
         if got != want:
-            bad.setdefault("special:" + text, "`%s` is converted to %s, expected %s" % (text, got, want))
+            # another tree is fine when it has the documented value (a sign pulled out of a product, a folded literal)
+            wit = value_differs(got, want)
+            if wit is None:
+                continue
+            bad.setdefault("special:" + text, "`%s` is converted to %s, expected %s%s" % (text, got, want, wit))
     R.count("CONVERT-EXP.texts", n)
     if not bad:
         R.ob("CONVERT-EXP", "all", True, "packages/rooc/src/parser/rules_parser/exp_parser.rs", "all %d fully parenthesised / documented-form texts are converted to the tree they were written from" % n)
     for g, why in sorted(bad.items())[:25]:
         R.ob("CONVERT-EXP", g, False, "packages/rooc/src/parser/rules_parser/exp_parser.rs", why)
+
+
+def tree_value(t, env):
+    """value of an arithmetic / logic tree (None when a node is outside the evaluated forms)"""
+    from fractions import Fraction as Fr
+    k = t[0]
+    if k == "num":
+        return Fr(t[1])
+    if k == "leaf":
+        return env.get(t[1])
+    if k == "un":
+        a = tree_value(t[2], env)
+        if a is None:
+            return None
+        return -a if t[1] == "Neg" else (Fr(0) if a != 0 else Fr(1)) if t[1] == "Not" else None
+    if k == "bin":
+        a, b = tree_value(t[2], env), tree_value(t[3], env)
+        if a is None or b is None:
+            return None
+        o = t[1]
+        tb = lambda z: Fr(1) if z else Fr(0)
+        if o == "Div":
+            return a / b if b != 0 else None
+        return {"Add": lambda: a + b, "Sub": lambda: a - b, "Mul": lambda: a * b, "And": lambda: tb(a != 0 and b != 0), "Or": lambda: tb(a != 0 or b != 0), "Xor": lambda: tb((a != 0) != (b != 0)),
+                "Implies": lambda: tb(a == 0 or b != 0), "Iff": lambda: tb((a != 0) == (b != 0))}.get(o, lambda: None)()
+    return None
+
+
+def value_differs(got, want):
+    """None when the two trees have the same value on every probe assignment, else a text with the witness; trees outside
+    the evaluated forms differ by definition (the exact-tree comparison stands)"""
+    from fractions import Fraction as Fr
+    import itertools as it_
+
+    def leaves(t, out):
+        if isinstance(t, tuple):
+            if t and t[0] == "leaf":
+                out.add(t[1])
+            for z in t[1:]:
+                leaves(z, out)
+        return out
+    try:
+        ls = sorted(leaves(got, set()) | leaves(want, set()))
+    except TypeError:
+        return " (not comparable by value)"
+    probes = [dict(zip(ls, [Fr(p_) for p_ in ps])) for ps in ([3, 5, 7, 11, 13, 17][:len(ls)], [-2, 7, -5, 3, -11, 13][:len(ls)], [Fr(1, 2), -3, Fr(5, 4), -7, 2, 9][:len(ls)])]
+    probes += [dict(zip(ls, bits)) for bits in it_.islice(it_.product((Fr(0), Fr(1)), repeat=len(ls)), 16)]
+    for env in probes:
+        try:
+            a, b = tree_value(got, env), tree_value(want, env)
+        except (ZeroDivisionError, TypeError, IndexError):
+            return " (not comparable by value)"
+        if a is None and b is None:
+            continue
+        if a is None or b is None:
+            return " (not comparable by value)"
+        if a != b:
+            return "; at %s the values are %s and %s" % ({k_: str(v_) for k_, v_ in env.items()}, a, b)
+    return None
 
 
 class _Quiet:
